@@ -107,6 +107,9 @@ pub struct Shape {
     /// committed values and gate inputs are the literals 0, 1, -1, 2, ... instead of symbolic values
     #[serde(default)]
     pub literal_witness: bool,
+    /// every committed value and gate input is 0
+    #[serde(default)]
+    pub zero_witness: bool,
 }
 
 impl Shape {
@@ -122,6 +125,7 @@ impl Shape {
             coef: Coef::Sym,
             lc_width: 0,
             literal_witness: false,
+            zero_witness: false,
             register_at: None,
         }
     }
@@ -198,6 +202,7 @@ pub struct Shared<G: AffineRepr> {
     pub coef_rng: rand_chacha::ChaChaRng,
     pub lc_width: usize,
     pub literal_witness: bool,
+    pub zero_witness: bool,
     pub lit_count: usize,
     /// indices of the registered closures in the order the current role ran them / the prover ran them
     pub closure_runs: Vec<usize>,
@@ -234,7 +239,9 @@ pub struct Shared<G: AffineRepr> {
 impl<G: AffineRepr> Shared<G> {
     pub fn draw(&mut self, kind: &str) -> FOf<G> {
         if self.recording {
-            let v = if self.literal_witness && (kind == "w" || kind == "v") {
+            let v = if self.zero_witness && (kind == "w" || kind == "v") {
+                FOf::<G>::zero()
+            } else if self.literal_witness && (kind == "w" || kind == "v") {
                 let k = self.lit_count;
                 self.lit_count += 1;
                 match k % 7 {
@@ -822,6 +829,7 @@ pub fn new_shared<G: AffineRepr>(shape: &Shape, err: &ErrPlan, src: Box<dyn Vals
         coef_rng: rand_chacha::ChaChaRng::seed_from_u64(seed),
         lc_width: shape.lc_width,
         literal_witness: shape.literal_witness,
+        zero_witness: shape.zero_witness,
         lit_count: 0,
         closure_runs: vec![],
         closure_runs_prover: vec![],
